@@ -7,14 +7,17 @@ translated statement by statement on top of the translated `Sequence` wrapper (`
 `barsToSeq`, … of Model/Bar.lean) that the C10 / C09 / C14 theorems are about.
 
 Representation (hand-written `Model/ElemLib.lean`): a `Bar` object is `GBar` (its `Sequence` as a wrapper state
-`Seq`, numerator, denominator, key index or `pyNone`, default_channel or `pyNone`), a `Track` is `GTrack` (bars, program), a `Composition` is
+`Seq`, numerator, denominator, key index or `pyNone`), a `Track` is `GTrack` (bars, program), a `Composition` is
 `GComposition` (tracks).  Objects are values; state changes of an object reached through a *loop or
 comprehension variable* are not written back (such code only reads: `bar.sequence`, `bar.copy()`).
 
 Python subset: field stores and reads, calls of translated `Sequence` methods on a field or local
 (`self.sequence.pad(capacity)`), calls of translated element methods, constructors, `Message(…)`, `Sequence()`,
 `int(<arithmetic>)` through the `PyNum` int/float tower (so `/` vs `//` and a missing `int()` change the
-translation), `sum` / `all` / `len`, generator expressions and list comprehensions with a filter, `for` over a
+translation), `sum` / `all` / `len`, generator expressions and list comprehensions with a filter, `next(<generator>, None)`
+(the first element or `None`: an `Option`), `<a> if <x> is not None else <b>` on such an `Option`, the view properties
+`<sequence>.rel` / `<sequence>.abs` (the translated property `Wrap.getRel` / `Wrap.getAbs`: a stale view is regenerated
+and the new wrapper state is written back) and `._messages` of the view they return, `for` over a
 list or over `range(0, len(x))`, subscripts (IndexError when out of range), `if`, `raise`, `return`.
 Links (assumptions): `Key.transpose_key` ↦ `e.tk`, `Sequence.sequences_split_bars` ↦ `View.seq_split_bars`
 (Model/ElemLib.lean, in terms of the model `splitBars`).  Anything else raises `Untranslatable`.
@@ -31,8 +34,7 @@ CLASSES = {
     "Bar": {
         "file": "scoda/elements/bar.py", "lean": "GBar",
         "fields": {"sequence": ("sequence", "Seq"), "time_signature_numerator": ("num", "Int"),
-                   "time_signature_denominator": ("den", "Int"), "key_signature": ("key", "Key"),
-                   "default_channel": ("defaultChannel", "Int")},
+                   "time_signature_denominator": ("den", "Int"), "key_signature": ("key", "Key")},
         "methods": [("__init__", "barInit"), ("copy", "barCopy"), ("is_empty", "barIsEmpty"),
                     ("transpose", "barTranspose"), ("to_sequence", "barsToSequence")],
     },
@@ -185,6 +187,16 @@ class ElemTranslator:
                 if n.attr not in MTYPES:
                     raise Untranslatable(f"MessageType.{n.attr}")
                 return f"MType.{MTYPES[n.attr]}", "MType"
+            if n.attr in ("rel", "abs"):
+                prop = self.view_property(n, ind)
+                if prop is not None:
+                    return prop
+            if n.attr == "_messages":
+                # the message list of a view object (RelativeSequence / AbsoluteSequence): the view itself in the value model
+                v, t = self.expr(n.value, ind)
+                if t not in ("RelView", "AbsView"):
+                    raise Untranslatable(f"._messages of {t}: {ast.unparse(n)}")
+                return v, "List Msg"
             try:
                 v, t, _ = self.lvalue(n)
                 return v, t
@@ -218,6 +230,8 @@ class ElemTranslator:
             if {ta, tb} <= {"Int", "Nat"} and ta == tb:
                 return self.cmp_int(op, a, b), "Bool"
             raise Untranslatable(f"comparison of {ta} and {tb}: {ast.unparse(n)}")
+        if isinstance(n, ast.IfExp):
+            return self.ifexp(n, ind)
         if isinstance(n, ast.Subscript):
             v, t = self.expr(n.value, ind)
             i, ti = self.expr(n.slice, ind)
@@ -237,6 +251,67 @@ class ElemTranslator:
         if isinstance(n, ast.Call):
             return self.call(n, ind)
         raise Untranslatable(f"expression {ast.unparse(n)}")
+
+    def view_property(self, n, ind):
+        """`<Seq place>.rel` / `.abs`: the translated property (sequence.py `rel` / `abs`) — a stale view is regenerated from the
+        other one (SequenceException when both are stale), the flag is cleared, and the wrapper state is written back to the place
+        it was read from; the value is the view.  None if the receiver is not a Sequence-valued place."""
+        try:
+            recv, rt, setter = self.lvalue(n.value)
+        except Untranslatable:
+            return None
+        if rt != "Seq":
+            return None
+        getter = {"rel": "getRel", "abs": "getAbs"}[n.attr]
+        t = self.fresh("r")
+        self.emit(ind, f"let {t} ← Wrap.{getter} e {recv}")
+        if setter is not None:
+            self.emit(ind, setter(f"{t}.1"))
+        # (for a place without a setter — a loop variable or parameter — the refresh of the cache is not written back: the
+        #  property only regenerates a cached view, as the methods of READ_ONLY_SEQ_METHODS do)
+        return f"{t}.2", ("RelView" if n.attr == "rel" else "AbsView")
+
+    def ifexp(self, n, ind):
+        """`<a> if <x> is not None else <b>` / `<b> if <x> is None else <a>` for a local `x : Option T`: a `match` in which `x` is
+        the unwrapped value inside `<a>`; other conditional expressions: `if c then a else b` on a Bool condition."""
+        tst = n.test
+        if isinstance(tst, ast.Compare) and len(tst.ops) == 1 and isinstance(tst.ops[0], (ast.Is, ast.IsNot)) \
+                and isinstance(tst.comparators[0], ast.Constant) and tst.comparators[0].value is None \
+                and isinstance(tst.left, ast.Name) and self.types.get(tst.left.id, "").startswith("Option "):
+            name = tst.left.id
+            some_branch, none_branch = (n.body, n.orelse) if isinstance(tst.ops[0], ast.IsNot) else (n.orelse, n.body)
+            opt_t = self.types[name]
+            inner = opt_t[len("Option "):]
+            inner = inner[1:-1] if inner.startswith("(") else inner
+            mark = len(self.lines)
+            nv, nt = self.expr(none_branch, ind)
+            # inside the `some` branch the name denotes the unwrapped value
+            saved_ro = name in self.readonly
+            self.types[name] = inner
+            self.readonly.add(name)
+            try:
+                sv, st = self.expr(some_branch, ind)
+            finally:
+                self.types[name] = opt_t
+                if not saved_ro:
+                    self.readonly.discard(name)
+            if len(self.lines) != mark:
+                raise Untranslatable(f"conditional expression with effects: {ast.unparse(n)}")
+            if st != nt:
+                nv = self.coerce(nv, nt, st)
+            ln = self.lname(name)
+            return f"(match {ln} with | some {ln} => {sv} | none => {nv})", st
+        c, ct = self.expr(tst, ind)
+        if ct != "Bool":
+            raise Untranslatable(f"condition of {ast.unparse(n)} : {ct}")
+        mark = len(self.lines)
+        a, ta = self.expr(n.body, ind)
+        b, tb = self.expr(n.orelse, ind)
+        if len(self.lines) != mark:
+            raise Untranslatable(f"conditional expression with effects: {ast.unparse(n)}")
+        if ta != tb:
+            b = self.coerce(b, tb, ta)
+        return f"(if {c} then {a} else {b})", ta
 
     def comprehension(self, n, ind):
         if len(n.generators) != 1 or not isinstance(n.generators[0].target, ast.Name):
@@ -333,6 +408,16 @@ class ElemTranslator:
                 if t != "List Int":
                     raise Untranslatable(f"sum over {t}")
                 return f"{v}.sum", "Int"
+            if f.id == "next":
+                # next(<iterable>, None): the first element, or None when there is none.  (Without a default the call raises
+                # StopIteration on an empty iterable: refused.)  The generator is lazy in Python; its filter has no effects (checked in
+                # `comprehension`), so the first element of the filtered list is what the generator yields first.
+                if len(n.args) != 2 or n.keywords or not (isinstance(n.args[1], ast.Constant) and n.args[1].value is None):
+                    raise Untranslatable(f"next without a None default: {src}")
+                if not isinstance(n.args[0], ast.GeneratorExp):
+                    raise Untranslatable(f"next of something that is not a generator expression: {src}")
+                v, t = self.expr(n.args[0], ind)
+                return f"{v}.head?", f"Option {paren(elem_of(t))}"
             if f.id == "all" and len(n.args) == 1:
                 v, t = self.expr(n.args[0], ind)
                 if t != "List Bool":
